@@ -16,6 +16,8 @@ HOOKS = {
 
 ENGINES = [
     {"name": "core", "path": "vlib/core.py", "serves_properties": ["*"], "kind_free_text": "runner: seeds, tiers, 16-worker sharding, evidence, known-finding matching, replay files"},
+    {"name": "net+peers", "path": "vlib/net.py, vlib/peers.py", "serves_properties": ["C05", "C06", "C07", "C08", "C09", "C10", "C11", "C12", "C13", "C14", "C15", "C16", "C17", "C18", "C19", "C20", "C21", "C23", "C38"], "kind_free_text": "in-memory duplex link with hold/filter/fragmentation/fault injection; recording puppet peer; recording ServerInterface; refssh-based Tap that decrypts the live stream independently"},
+    {"name": "sftpenv", "path": "vlib/sftpenv.py", "serves_properties": ["C27", "C28", "C29", "C30", "C31", "C32"], "kind_free_text": "production SFTPServer+SFTPClient over a socketpair with fault plans and a raw packet client"},
     {"name": "refssh", "path": "vlib/refssh.py", "serves_properties": ["C01", "C02", "C03", "C04", "C05", "C06", "C09", "C14", "C35", "C39", "C45"], "kind_free_text": "independent RFC 4251/4253 reference codec+KDF (no paramiko imports) used as differential oracle"},
 ]
 
@@ -37,6 +39,16 @@ CHECKS = {
         "note": "Trusts vlib/refssh.py's RFC 4251 encoders (60 lines, built on int.to_bytes) and hypothesis' generators; adaptive-int "
         "encoding above 0xFF000000 is paramiko-specific and only round-trip checked.",
     },
+}
+
+CHECKS["C12"] = {
+    "engine": "net+peers",
+    "technique": PBT + ": exhaustive type x role enumeration with generated payloads against a recording puppet peer; sentinel-ordered reply oracle",
+    "text": "Every message type 0..255 without a handler in the tested role (client and server, post-auth) is sent by a recording puppet peer "
+    "with generated payloads, followed by a sentinel request; the replies up to the sentinel's answer must be exactly one UNIMPLEMENTED carrying "
+    "the probe's sequence number (none for a probe of type 3), and a channel round trip must still work. Exhaustive over type x role, sampled over payloads/orders.",
+    "note": "The puppet peer is itself a paramiko Transport (handshake/encryption by production code) whose inbound non-kex messages are only logged; "
+    "probe sequence numbers come from the puppet's packetizer. DISCONNECT/IGNORE/DEBUG and the kex range 20-49 are outside 'unrecognised'.",
 }
 
 NOT_APPLICABLE = {}
